@@ -119,7 +119,7 @@ pub fn run(ctx: &mut Ctx) {
             }
         }
     }
-    ctx.rule = format!("non-electrolyte zoo({}) x compositions x T/Tref {:?} x {{B, C, dB/dT, dC/dT}}; oracle: B = lim (Z-1)/rho and C = lim d((Z-1)/rho)/drho by quadratic extrapolation from real states at rho = {{1,2,4}} x 1e-4 rho_max (repeated at half the densities for the error estimate e; accepted iff |coef - limit| <= 50 e + 1e-7 scale); temperature derivatives vs Richardson differences of the coefficient; all four finite", z.len(), tfs);
+    ctx.rule = format!("non-electrolyte zoo({}) x compositions x T/Tref {:?} x {{B, C, dB/dT, dC/dT}}; all four independent of the amount of substance handed in (1 mol, 2.5 mol, 1e-3 mol, None); oracle: B = lim (Z-1)/rho and C = lim d((Z-1)/rho)/drho by quadratic extrapolation from real states at rho = {{1,2,4}} x 1e-4 rho_max (repeated at half the densities for the error estimate e; accepted iff |coef - limit| <= 50 e + 1e-7 scale); temperature derivatives vs Richardson differences of the coefficient; all four finite", z.len(), tfs);
     ctx.extra("models", json!(z.iter().map(|e| e.id.clone()).collect::<Vec<_>>()));
     ctx.run(&cases, |c| format!("{}|x={}|T={}", c.entry.id, xs(&c.x), c.tf), case);
     ctx.assume("electrolyte mixtures excluded (the coefficient does not exist); temperatures and compositions on the lattice");
